@@ -257,6 +257,10 @@ def perturb_inner(rng, sc, y, strength=1.):
     c = y[idiss:] / Q
     Qn = Q * np.exp(rng.gauss(0., 0.3 * strength))
     Jn = J * np.exp(rng.gauss(0., 0.4 * strength))
+    if strength > 0 and rng.random() < 0.25:
+        # a thin plume carrying the same particle load: the particle terms weigh more in the budgets
+        f = 10 ** -rng.uniform(1., 4.)
+        Qn, Jn = Qn * f, Jn * f
     sn = min(max(s + rng.gauss(0., 0.3 * strength), 0.), 42.)
     Tn = min(max(T + rng.gauss(0., 1.5 * strength), 271.5), 310.)
     y[0], y[1], y[2], y[3] = Qn, Jn, sn * Qn, Tn * sc.p.rho_r * seawater.cp() * Qn
